@@ -20,6 +20,15 @@ Nothing here parses Liquid text.  A program is ``{name: items}``; an item is a J
                                          inside is NOT template markup (no definitions)
     ["raw", body]                        {% raw %}body{% endraw %}: body is literal text
     a "b" item with a 6th element "liquid" is emitted in {% liquid %} line form
+    ["trow", var, n, body]               {% tablerow var in (1..n) %}body{% endtablerow %} (optional
+                                         shopify tag; one table row, one cell per item)
+    ["box", None, None, body]            {% box %}body{% endbox %}: a docs-style custom block tag
+    ["boxnc", None, None, body]          the same tag written WITHOUT children() (the docs call it
+                                         optional); blocks inside still belong to the template
+    ["ifeq", var, value, body]           {% if var == value %}body{% endif %}
+    ["brk"] / ["cnt"]                    {% break %} / {% continue %}: end the innermost loop /
+                                         iteration that is being rendered, wherever it is written
+                                         (text already written stays written)
     ["as", name, value]                  {% assign name = 'value' %}
     ["inc", kind, target, kwargs]        {% include|render 'target'[, k: var ...] %}
                                          (target "@var" = {% include var %}, name from scope)
@@ -54,6 +63,12 @@ class RefError(Exception):
 
 
 STRUCTURAL = ("cycle", "duplicate", "extends2", "endblock")
+
+
+class _Interrupt(Exception):
+    def __init__(self, kind: str) -> None:
+        super().__init__(kind)
+        self.kind = kind
 
 
 class Sem:
@@ -104,7 +119,8 @@ class Outcome:
 # ---------------------------------------------------------------------------
 
 
-BODY3 = ("for", "forin", "unless", "case", "with")  # containers whose body is it[3]
+# containers whose body is it[3]
+BODY3 = ("for", "forin", "unless", "case", "with", "trow", "box", "boxnc", "ifeq")
 
 
 def body_index(it: list) -> int | None:
@@ -287,8 +303,31 @@ class Ref:
                     scope.append({it[1]: i})
                     try:
                         self._items(it[3], e, cur, owner, scope, out)
+                    except _Interrupt as intr:
+                        if intr.kind == "break":
+                            break
                     finally:
                         scope.pop()
+            elif k == "trow":
+                out.append('<tr class="row1">\n')
+                for i in range(1, it[2] + 1):
+                    out.append('<td class="col%d">' % i)
+                    scope.append({it[1]: i})
+                    try:
+                        self._items(it[3], e, cur, owner, scope, out)
+                    finally:
+                        scope.pop()
+                    out.append("</td>")
+                out.append("</tr>\n")
+            elif k in ("box", "boxnc"):
+                self._items(it[3], e, cur, owner, scope, out)
+            elif k == "ifeq":
+                if self._lookup(scope, it[1]) == it[2]:
+                    self._items(it[3], e, cur, owner, scope, out)
+            elif k == "brk":
+                raise _Interrupt("break")
+            elif k == "cnt":
+                raise _Interrupt("continue")
             elif k == "unless":
                 v = self._lookup(scope, it[1])
                 if v is None or v is False:
@@ -326,6 +365,9 @@ class Ref:
                     scope.append({it[1]: v})
                     try:
                         self._items(it[3], e, cur, owner, scope, out)
+                    except _Interrupt as intr:
+                        if intr.kind == "break":
+                            break
                     finally:
                         scope.pop()
             elif k == "as":
@@ -452,6 +494,10 @@ def expected(prog: Program, entry: str, data: dict, sem: Sem | None = None,
         r.o.kind = "err"
         r.o.err = err.kind
         r.o.detail = err.detail
+    except _Interrupt as intr:  # break / continue outside any loop: not generated
+        r.o.kind = "err"
+        r.o.err = "missing"
+        r.o.detail = f"stray {intr.kind}"
     return r.o
 
 
@@ -554,6 +600,18 @@ def emit_items(items: list) -> str:
             )
         elif k == "unless":
             parts.append("{%% unless %s %%}%s{%% endunless %%}" % (it[1], emit_items(it[3])))
+        elif k == "trow":
+            parts.append(
+                "{%% tablerow %s in (1..%d) %%}%s{%% endtablerow %%}" % (it[1], it[2], emit_items(it[3]))
+            )
+        elif k in ("box", "boxnc"):
+            parts.append("{%% %s %%}%s{%% end%s %%}" % (k, emit_items(it[3]), k))
+        elif k == "ifeq":
+            parts.append("{%% if %s == %d %%}%s{%% endif %%}" % (it[1], it[2], emit_items(it[3])))
+        elif k == "brk":
+            parts.append("{% break %}")
+        elif k == "cnt":
+            parts.append("{% continue %}")
         elif k == "case":
             parts.append(
                 "{%% case %s %%}{%% when '%s' %%}%s{%% endcase %%}" % (it[1], it[2], emit_items(it[3]))
